@@ -178,6 +178,10 @@ fn compare_for_min(current: &Option<Value>, new: &Value) -> bool {
         (None, _) => true,
         (Some(Value::Int64(a)), Value::Int64(b)) => b < a,
         (Some(Value::Float64(a)), Value::Float64(b)) => b < a,
+        // A numeric column may mix integers and floats: compare them as numbers, otherwise
+        // the minimum depends on how the rows were split among the workers.
+        (Some(Value::Int64(a)), Value::Float64(b)) => *b < (*a as f64),
+        (Some(Value::Float64(a)), Value::Int64(b)) => (*b as f64) < *a,
         (Some(Value::String(a)), Value::String(b)) => b < a,
         _ => false,
     }
@@ -188,6 +192,8 @@ fn compare_for_max(current: &Option<Value>, new: &Value) -> bool {
         (None, _) => true,
         (Some(Value::Int64(a)), Value::Int64(b)) => b > a,
         (Some(Value::Float64(a)), Value::Float64(b)) => b > a,
+        (Some(Value::Int64(a)), Value::Float64(b)) => *b > (*a as f64),
+        (Some(Value::Float64(a)), Value::Int64(b)) => (*b as f64) > *a,
         (Some(Value::String(a)), Value::String(b)) => b > a,
         _ => false,
     }
